@@ -193,6 +193,28 @@ pub fn check_history(h: &HistoryCase, st: &mut Stats) -> Check {
     Ok(())
 }
 
+/// deep cause chains, very long traces / texts, parameter frames in typed traces: mapper vs cache
+pub fn check_big(case: &MapCase, st: &mut Stats) -> Check {
+    let u = Universe::from_ast(&case.file, false);
+    let bytes = case.bytes();
+    let pool = name_pool_for(&case.file, &u);
+    let mut typed = crate::engine::sample_n(&crate::gen::trace::deep_trace(&pool), case.key ^ 1, 1);
+    typed.extend(crate::engine::sample_n(&crate::gen::trace::long_trace(&pool), case.key ^ 2, 1));
+    typed.extend(crate::engine::sample_n(&crate::gen::trace::param_trace(&pool, &u.params), case.key ^ 3, 6));
+    let mut texts: Vec<String> = crate::engine::sample_n(&crate::gen::trace::long_text(&pool), case.key ^ 4, 1).into_iter().map(|t| t.render()).collect();
+    texts.extend(typed.iter().take(2).map(|t| t.print()));
+    let extra = crate::transcript::Extra { throwables: vec![], texts, typed, sigs: vec![] };
+    let m_params = mapper(&bytes, true)?;
+    let buf = write_cache(&bytes)?;
+    let cache = parse_cache(&buf)?;
+    st.class("big traces: depth >= 126, >= 350 frames / lines, parameter frames");
+    no_panic("query", || crate::transcript::compare_extra(&m_params, &cache, &extra, Kinds { text: true, typed: true, ..Kinds::default() }, case.hash(), st)).map_err(|mut f| {
+        f.msg = crate::engine::truncate(&f.msg, 1500);
+        f.detail = Value::Null;
+        f
+    })
+}
+
 #[derive(Clone, Debug, serde::Serialize, serde::Deserialize)]
 pub struct CorpusCase {
     pub path: String,
@@ -228,6 +250,7 @@ pub fn run(ctx: &Ctx) -> Report {
     rep.run_stage("tall", || tall_case(&cfg()), nt, check_case);
     let nm = ctx.cases(3000, 120_000);
     rep.run_stage("mutant", || mutate::mut_case(&cfg()), nm, check_mutant);
+    rep.run_stage("big-traces", || map_case(&GenCfg { max_blocks: 4, max_items: 8, long: 0, ..cfg() }), ctx.cases(150, 3_000), check_big);
     rep.run_stage("history", history_case, ctx.cases(3000, 120_000), check_history);
     let corpus = corpus_cases(ctx);
     rep.run_enum("corpus", &corpus, check_corpus);
@@ -271,6 +294,7 @@ pub fn replay(stage: &str, case: &Value) -> Check {
     }
     match stage {
         "ast" | "tall" => check_case(&serde_json::from_value(case.clone()).map_err(|e| Fail::new("harness-replay", e.to_string()))?, &mut st),
+        "big-traces" => check_big(&serde_json::from_value(case.clone()).map_err(|e| Fail::new("harness-replay", e.to_string()))?, &mut st),
         "history" => check_history(&serde_json::from_value(case.clone()).map_err(|e| Fail::new("harness-replay", e.to_string()))?, &mut st),
         "mutant" => check_mutant(&serde_json::from_value(case.clone()).map_err(|e| Fail::new("harness-replay", e.to_string()))?, &mut st),
         "corpus" => check_corpus(&serde_json::from_value(case.clone()).map_err(|e| Fail::new("harness-replay", e.to_string()))?, &mut st),
